@@ -283,6 +283,35 @@ def c17_copy_helper():
     return {"violates": got != want, "detail": None if got == want else f"copied {got}, the source holds {want}"}
 
 
+def c17_refused_step(writer="AvroWriter", accepted_before=1):
+    """accepted_before accepted records, one refused record (the value that is refused is in the second field), one accepted record, close: everything accepted is readable"""
+    from flow.record import RecordDescriptor, RecordReader, RecordWriter
+
+    D = RecordDescriptor("c17/step", [("string", "s"), ("varint", "n")])
+    scheme, fname = SCHEMES[writer]
+    with tempfile.TemporaryDirectory() as td:
+        path = os.path.join(td, fname)
+        try:
+            w = RecordWriter(scheme + path)
+            want = []
+            for k in range(accepted_before):
+                w.write(D(s=f"r{k}", n=k, _generated=GEN))
+                want.append(f"r{k}")
+            try:
+                w.write(D(s="refused", n=2**70, _generated=GEN))
+                want.append("refused")
+            except Exception:
+                pass
+            w.write(D(s="last", n=1, _generated=GEN))
+            want.append("last")
+            w.close()
+            with RecordReader(scheme + path) as rd:
+                got = [r.s for r in rd]
+        except Exception as e:
+            return {"violates": True, "detail": f"after {accepted_before} accepted record(s), a refused one, an accepted one and close(): {type(e).__name__}: {e}"}
+    return {"violates": got != want, "detail": None if got == want else f"{len(want)} record(s) accepted, {len(got)} readable after close"}
+
+
 def c17_archiver():
     from flow.record import RecordReader
     from flow.record.stream import RecordArchiver
@@ -387,4 +416,4 @@ def c17_split_raw(n=3, count=1, selector=None):
     bad = out != [f"r{i}" for i in range(n)] or end != "stop"
     return {"violates": bad, "detail": f"{len(parts)} parts concatenated as raw bytes read back as {out}, ended {end}; written r0..r{n - 1}"}
 
-CALLS = {"c17_copy_helper": c17_copy_helper, "c17_archiver": c17_archiver, "c17_split_raw": c17_split_raw, "c17_split_target": c17_split_target, "c17_template": c17_template, "c17_history": c17_history, "c17_split": c17_split, "c17_rotate": c17_rotate, "c17_sweep": c17_sweep}
+CALLS = {"c17_refused_step": c17_refused_step, "c17_copy_helper": c17_copy_helper, "c17_archiver": c17_archiver, "c17_split_raw": c17_split_raw, "c17_split_target": c17_split_target, "c17_template": c17_template, "c17_history": c17_history, "c17_split": c17_split, "c17_rotate": c17_rotate, "c17_sweep": c17_sweep}
